@@ -58,8 +58,8 @@ func c15Job(raw json.RawMessage) (interface{}, error) {
 		sup := w.Srv.VerifFsState().Super
 		L := fsck.LayoutFor(a.Size)
 		regs := []struct {
-			name     string
-			lo, hi   uint64
+			name   string
+			lo, hi uint64
 		}{
 			{"log", 0, uint64(sup.BitmapBlockStart())},
 			{"block bitmap", uint64(sup.BitmapBlockStart()), uint64(sup.BitmapInodeStart())},
